@@ -76,10 +76,10 @@ type raceChain struct {
 }
 
 func (c06RaceWorld) Run(prop string, ch *zsim.Choices, trace bool) *RunResult {
-	oldTS, oldEH := zerolog.TimestampFunc, zerolog.ErrorHandler
+	oldTS, oldEH, oldSM := zerolog.TimestampFunc, zerolog.ErrorHandler, zerolog.ErrorStackMarshaler
 	oldG := zlog.Logger
 	defer func() {
-		zerolog.TimestampFunc, zerolog.ErrorHandler = oldTS, oldEH
+		zerolog.TimestampFunc, zerolog.ErrorHandler, zerolog.ErrorStackMarshaler = oldTS, oldEH, oldSM
 		zlog.Logger = oldG
 		zerolog.SetGlobalLevel(zerolog.TraceLevel)
 		zerolog.DisableSampling(false)
@@ -91,6 +91,7 @@ func (c06RaceWorld) Run(prop string, ch *zsim.Choices, trace bool) *RunResult {
 		zerolog.DisableSampling(false)
 		zerolog.TimestampFunc = func() time.Time { return refTime }
 		zerolog.ErrorHandler = func(err error) {}
+		zerolog.ErrorStackMarshaler = func(err error) interface{} { return "STACK" }
 		var a io.Writer = raceSink{}
 		var b io.Writer = raceLevelSink{}
 		dk := ch.Intn(9)
